@@ -21,14 +21,14 @@ import (
 func init() {
 	mon.Register(&mon.Prop{
 		ID: "C13", Race: true, Level: "exploration",
-		Rule: "record lists of length 1..200 with names of printable characters and sequences of 0..300000 letters (incl. the boundary lengths 65535, 65536, 65537 and single lines of 300000); write direction Build -> Parse, Write -> Read, gzip -> ReadGz; re-layouts by the harness's own writer (wrap width 1..250 or none, blank lines, ';' comment lines, CRLF, gzip); streaming: ParseConcurrent in a harness goroutine with channel capacities {0,1,2,7,64,1000}, PRNG-stalled consumers and a reader that returns 1..k bytes per call (sometimes data together with EOF), under the race detector; non-trivial = list with >= 2 records or a sequence longer than one line; distinct by hash of the laid-out text",
+		Rule: "record lists of length 1..200 with names of printable characters and sequences of 0..300000 letters (incl. the boundary lengths 65535, 65536, 65537 and single lines of 300000); write direction Build -> Parse, Write -> Read, gzip -> ReadGz; re-layouts by the harness's own writer (wrap width 1..250 or none, blank lines, ';' comment lines, CRLF, gzip); a complete grid of sequence lines of k*4096+d and k*65536+d letters (k 1..4, d -3..3) with LF and CRLF, single and wrapped; streaming: ParseConcurrent in a harness goroutine with channel capacities {0,1,2,7,64,1000}, PRNG-stalled consumers and a reader that returns 1..k bytes per call (sometimes data together with EOF), under the race detector; non-trivial = list with >= 2 records or a sequence longer than one line; distinct by hash of the laid-out text",
 		Assumptions: []string{
 			"oracle: the input list; closed-exactly-once is decided without blocking after the producer has returned (an open, empty channel whose producer is gone was never closed; a second close or a send after close panics in the harness goroutine and is recorded)",
 			"a wall-clock watchdog per streaming case (120 s) only yields inconclusive",
 		},
 		Shards: tierShards(16, 16), WatchdogSec: tierSecs(900, 3600),
 		MinStats: func(string) map[string]int64 {
-			return map[string]int64{"lists_round_tripped": 300, "relayouts_parsed": 1000, "streaming_runs": 60, "records_streamed": 1000, "sequences_of_64KiB_or_more": 20}
+			return map[string]int64{"lists_round_tripped": 300, "relayouts_parsed": 1000, "streaming_runs": 60, "records_streamed": 1000, "sequences_of_64KiB_or_more": 20, "buffer_boundary_cases": 200}
 		},
 		Run: runC13,
 	})
@@ -270,8 +270,8 @@ func streamParse(r *rand.Rand, text []byte, capacity int, stall int, dribble int
 }
 
 func runC13(w *mon.W) {
-	nLists := w.Pick(400, 8000)
-	nStream := w.Pick(120, 4000)
+	nLists := w.Pick(1200, 12000)
+	nStream := w.Pick(400, 6000)
 	tmp := filepath.Join(w.Dir, fmt.Sprintf("c13-%d", w.Shard))
 	os.MkdirAll(tmp, 0755)
 	defer os.RemoveAll(tmp)
@@ -359,6 +359,56 @@ func runC13(w *mon.W) {
 		w.End()
 		if w.WantSample() && len(list) <= 3 && len(text) < 400 {
 			w.Sample(map[string]any{"case": id, "fasta_text": string(text)})
+		}
+	}
+	// ---- buffer-size boundaries: sequence lines of k*B+d letters (B = 4096 and 65536, the usual reader and
+	// scanner buffer sizes), LF and CRLF, single line and wrapped at that width, after headers of varying length
+	for _, B := range []int{4096, 65536} {
+		for kk := 1; kk <= 4; kk++ {
+			for d := -3; d <= 3; d++ {
+				for variant := 0; variant < 4; variant++ {
+					id := fmt.Sprintf("boundary-%d-%d-%d-%d", B, kk, d, variant)
+					idx++
+					if !w.Want(id, idx) {
+						continue
+					}
+					r := w.Rand(id)
+					L := kk*B + d
+					crlf := variant&1 == 1
+					wrapped := variant&2 == 2
+					list := []fasta.Fasta{
+						{Name: fastaName(r), Sequence: randString(r, "ACGT", r.Intn(100))},
+						{Name: fastaName(r), Sequence: randString(r, "ACGTN", L)},
+						{Name: fastaName(r), Sequence: randString(r, "ACGT", 1+r.Intn(100))},
+					}
+					width := 0
+					if wrapped {
+						width = L
+						list[1].Sequence += randString(r, "ACGT", L+r.Intn(50)) // a full line of L letters, then another, then a rest
+					}
+					lay := layoutFasta(r, list, width, false, false, crlf)
+					w.Begin(id, fmt.Sprintf("sequence line of %d letters, CRLF %v, wrapped %v", L, crlf, wrapped))
+					var got []fasta.Fasta
+					how := "fasta.Parse"
+					if kk%2 == 0 {
+						how = "fasta.ParseConcurrent behind a reader of <= 5000-byte chunks"
+						res := streamParse(r, []byte(lay), 2, 0, 5000, d%2 == 0)
+						got = res.recs
+						if res.panicMsg != "" || res.neverClosed || res.timedOut {
+							w.Violation(id, fmt.Sprintf("%s on a sequence line of %d letters: panic %q, never closed %v, timed out %v", how, L, res.panicMsg, res.neverClosed, res.timedOut), nil)
+						}
+					} else {
+						got = fasta.Parse(strings.NewReader(lay))
+					}
+					w.Eval(true, mon.Hash64(lay))
+					w.Add("buffer_boundary_cases", 1)
+					if dd := diffFasta(list, got); dd != "" {
+						w.Violation(id, fmt.Sprintf("%s of a layout with a sequence line of exactly %d letters (CRLF %v, wrapped at that width %v): %s", how, L, crlf, wrapped, dd),
+							map[string]any{"line_length": L, "crlf": crlf, "wrapped": wrapped})
+					}
+					w.End()
+				}
+			}
 		}
 	}
 	// ---- streaming
